@@ -41,6 +41,7 @@ struct SchedStats {
 void init();
 void reset(const SchedConfig &cfg);      // only thread 0, all other threads finished
 const SchedStats &stats();
+void budget_reset();   // the step budget (max_steps) counts from here: call at the start of each sub-run
 uint64_t step();
 uint64_t clock_usec();                   // simulated clock
 void clock_jump(int64_t delta_usec);
